@@ -330,7 +330,12 @@ impl PreferenceManager {
             self.api_prefs = Preferences{ prefs: DEFAULT_API_PREFERENCES.with(|defaults| defaults.prefs.clone()) };
         }
 
-        let should_update_system_prefs = self.sys_prefs_file.is_none() || !self.sys_prefs_file.as_ref().unwrap().is_up_to_date();
+        // the rules dir might have changed since the system prefs were read
+        let is_sys_prefs_in_rules_dir = match self.sys_prefs_file.as_ref() {
+            Some(sys_prefs_file) => sys_prefs_file.debug_get_file() == self.rules_dir.join("prefs.yaml").to_str(),
+            None => false,
+        };
+        let should_update_system_prefs = !is_sys_prefs_in_rules_dir || !self.sys_prefs_file.as_ref().unwrap().is_up_to_date();
         let should_update_user_prefs = self.user_prefs_file.is_none() || !self.user_prefs_file.as_ref().unwrap().is_up_to_date();
         if !(should_update_system_prefs || should_update_user_prefs) {
             return Ok( () );            // no need to do anything else
